@@ -72,6 +72,163 @@ KNOWN_WRITES = {
     ("deprecated", "component.__doc__"): "builder:decorator applied at import time",
     ("shtab_prepare_actions", "parser._actions.append(clone)"): "outside:--print_shtab",
 }
+# writes found once every module and every receiver name is looked at: objects that live for one call
+for _f, _ts in {
+    "ActionLink.instantiation_order": ["graph.add_edge(source_action.dest, target)", "graph.add_edge(target, target_prefix)"],
+    "AssignsVisitor.find": ["self.assigns_found"],
+    "BackportTypeHints.backport": ["self.exec_vars"],
+    "ImportsVisitor.find": ["self.imports_found", "self.module_path"],
+    "MethodsVisitor.find": ["self.method_found", "self.method_name"],
+    "NamesVisitor.find": ["self.names_found"],
+    "ParametersVisitor.find_values_usage": ["self.dict_assigns", "self.find_values", "self.import_names", "self.values_found"],
+    "ParametersVisitor.get_component_from_source": ["ast_exec.body"],
+    "ParametersVisitor.get_parameters": ["self.doc_params"],
+    "ParametersVisitor.get_parameters_args_and_kwargs": ["self.add_node_origins(params, node)"],
+    "ParametersVisitor.get_parameters_call_attr": ["self.add_node_origins(match, node)"],
+    "ParametersVisitor.parse_source_tree": ["self.component_node", "self.self_name"],
+    "StubsResolver.get_aliases": ["self.add_import_aliases(aliases, imported_info)"],
+    "TypeCheckingVisitor.update_aliases": ["self.aliases", "self.logger", "self.module"],
+    "get_arg_type": ["type_ast.body", "type_ast.body[0].value"],
+}.items():
+    for _t in _ts:
+        KNOWN_WRITES[(_f, _t)] = "fresh-object:visitor / syntax tree / graph built for this call"
+for _f, _ts in {
+    "Namespace.as_flat": ["setattr(flat, key, val)"],
+    "Namespace.pop": ["parent_ns.__dict__.pop(leaf_key, default)"],
+    "ParametersVisitor.replace_param_default_subclass_specs": ["param.default"],
+    "evaluate_postponed_annotations": ["param.annotation"],
+    "group_parameters": ["gparam.annotation", "gparam.component", "gparam.default", "gparam.doc", "gparam.origin", "gparam.parent", "param.origin",
+                         "params_dict[param.name].append(param)"],
+    "replace_generic_type_vars": ["param.annotation"],
+    "resolve_class_path_by_name": ["subclass_dict[subclass_name].append(subclass)"],
+}.items():
+    for _t in _ts:
+        KNOWN_WRITES[(_f, _t)] = "value-object:namespace / parameter list being computed"
+KNOWN_WRITES[("ArgumentParser._parse_common", "ActionTypeHint.add_sub_defaults(self, cfg)")] = "value-object:fills the configuration being returned"
+KNOWN_WRITES[("ArgumentParser.get_defaults", "ActionTypeHint.add_sub_defaults(self, cfg)")] = "value-object:fills the configuration being returned"
+KNOWN_WRITES[("RegisteredType.deserializer", "ex2.parent")] = "value-object:exception being raised"
+KNOWN_WRITES[("get_yaml_default_loader", "DefaultLoader.add_implicit_resolver('tag:yaml.org,2002:float', re.compile('^(?:\\n        [-+]?(?:[0-...")] = \
+    "memo-of-constant:the loader class, built once per process"
+KNOWN_WRITES[("patch_namespace", "argparse.Namespace")] = "restored:bracket patch_namespace (Gen/Brackets: finally)"
+for _t in ["cls.yaml_implicit_resolvers", "cls.yaml_implicit_resolvers[first_letter]"]:
+    KNOWN_WRITES[("get_yaml_default_loader", _t)] = "memo-of-constant:the loader class, built once per process"
+    KNOWN_WRITES[("get_yaml_default_loader.remove_implicit_resolver", _t)] = "memo-of-constant:the loader class, built once per process"
+
+# ---- process-level state: module globals, module-level containers, class attributes, caching decorators -------------------
+# (file, function, kind, target) -> classification
+KNOWN_PROC_WRITES = {
+    ("_common.py", "set_parsing_settings", "module-object", "parsing_settings['parse_optionals_as_positionals']"): "declaration-time:public settings function",
+    ("_completions.py", "add_bash_typehint_completion", "module-object", "shtab_preambles.get().append(fn)"): "outside:--print_shtab (list made by prepare_actions_context)",
+    ("_deprecated.py", "deprecation_warning", "module-object", "shown_deprecation_warnings.add(component)"): "outside:each deprecation warning is shown once per process (warnings, not answers)",
+    ("_deprecated.py", "instantiate_subclasses_patch", "class-attr", "ArgumentParser.instantiate_subclasses"): "declaration-time:runs at import",
+    ("_loaders_dumpers.py", "get_loader_exceptions", "module-object", "loader_exceptions[mode]"): "memo-of-constant:exception classes of a loader",
+    ("_loaders_dumpers.py", "get_yaml_default_dumper", "global", "yaml_default_dumper"): "memo-of-constant:the dumper class, built once per process",
+    ("_loaders_dumpers.py", "get_yaml_default_loader", "global", "yaml_default_loader"): "memo-of-constant:the loader class, built once per process",
+    ("_loaders_dumpers.py", "get_yaml_default_loader", "class-attr", "cls.yaml_implicit_resolvers"): "memo-of-constant:the loader class, built once per process",
+    ("_loaders_dumpers.py", "get_yaml_default_loader", "class-attr", "cls.yaml_implicit_resolvers[first_letter]"): "memo-of-constant:the loader class, built once per process",
+    ("_loaders_dumpers.py", "get_yaml_default_loader.remove_implicit_resolver", "class-attr", "cls.yaml_implicit_resolvers"): "memo-of-constant:the loader class, built once per process",
+    ("_loaders_dumpers.py", "get_yaml_default_loader.remove_implicit_resolver", "class-attr", "cls.yaml_implicit_resolvers[first_letter]"): "memo-of-constant:the loader class, built once per process",
+    ("_loaders_dumpers.py", "set_dumper", "module-object", "dumpers[format_name]"): "declaration-time:public settings function",
+    ("_loaders_dumpers.py", "set_loader", "module-object", "loader_exceptions[mode]"): "declaration-time:public settings function",
+    ("_loaders_dumpers.py", "set_loader", "module-object", "loader_json_superset[mode]"): "declaration-time:public settings function",
+    ("_loaders_dumpers.py", "set_loader", "module-object", "loader_params[mode]"): "declaration-time:public settings function",
+    ("_loaders_dumpers.py", "set_loader", "module-object", "loaders[mode]"): "declaration-time:public settings function",
+    ("_optionals.py", "final", "setattr", "setattr(cls, '__final__', True)"): "declaration-time:class decorator",
+    ("_optionals.py", "get_docstring_parse_options", "module-object", "_docstring_parse_options['style']"): "memo-of-constant:default docstring style resolved on first use",
+    ("_optionals.py", "set_config_read_mode", "global", "_config_read_mode"): "declaration-time:public settings function",
+    ("_optionals.py", "set_config_read_mode.update_mode", "global", "_config_read_mode"): "declaration-time:public settings function",
+    ("_optionals.py", "set_docstring_parse_options", "module-object", "_docstring_parse_options['attribute_docstrings']"): "declaration-time:public settings function",
+    ("_optionals.py", "set_docstring_parse_options", "module-object", "_docstring_parse_options['style']"): "declaration-time:public settings function",
+    ("_stubs_resolver.py", "get_stubs_resolver", "global", "stubs_resolver"): "memo-of-constant:resolver of the installed stub files, built once per process",
+    ("_util.py", "register_unresolvable_import_paths", "module-object", "unresolvable_import_paths[val]"): "declaration-time:public settings function",
+    ("typing.py", "get_registered_type", "module-object", "registration_pending.pop(import_path)"): "memo-of-constant:a type registered on first use; registering is idempotent",
+    ("typing.py", "register_type", "module-object", "registered_type_handlers[type_class]"): "declaration-time:public settings function",
+    ("typing.py", "register_type", "module-object", "registered_types[uniqueness_key]"): "declaration-time:public settings function",
+    ("typing.py", "register_type_on_first_use", "module-object", "registration_pending[import_path]"): "declaration-time:public settings function",
+}
+for _t in ["ArgumentParser.__init__", "ArgumentParser._unpatched_dump", "ArgumentParser._unpatched_init", "ArgumentParser._unpatched_instantiate_classes",
+           "ArgumentParser._unpatched_save", "ArgumentParser.dump", "ArgumentParser.instantiate_classes", "ArgumentParser.save"]:
+    KNOWN_PROC_WRITES[("_deprecated.py", "parse_as_dict_patch", "class-attr", _t)] = "declaration-time:runs at import"
+for _f in ["parse_as_dict_patch", "parse_as_dict_patch.patch_parse_method"]:
+    for _t in ["setattr(ArgumentParser, method_name, patched_parse)", "setattr(ArgumentParser, unpatched_method_name, getattr(ArgumentParser, method_name))"]:
+        KNOWN_PROC_WRITES[("_deprecated.py", _f, "setattr", _t)] = "declaration-time:runs at import"
+
+
+def proc_writes(src):
+    """writes to state that belongs to the PROCESS: names declared `global`, module-level containers mutated inside a
+    function, attributes of classes of the package (`cls.x = …`, `ClassName.x = …`, setattr on them) and every caching
+    decorator — in EVERY function of EVERY module, whether the call graph reaches it or not"""
+    modlevel = set()
+    classes = set()
+    for tree in src.trees.values():
+        for st in tree.body:
+            tg = []
+            if isinstance(st, ast.Assign):
+                tg = st.targets
+            elif isinstance(st, ast.AnnAssign):
+                tg = [st.target]
+            for t in tg:
+                if isinstance(t, ast.Name):
+                    modlevel.add(t.id)
+            if isinstance(st, ast.ClassDef):
+                classes.add(st.name)
+    mut = MUTATORS | {"sort", "reverse", "appendleft"}
+    rows = set()
+    for q, (fn, f) in src.funcs.items():
+        q = q.split("#")[0]
+        for d in f.decorator_list:
+            t = ast.unparse(d)
+            if "cache" in t.lower() or "memo" in t.lower():
+                rows.add((fn, q, "decorator", t[:100]))
+        params = {a.arg for a in f.args.args + f.args.kwonlyargs + f.args.posonlyargs}
+        for va in (f.args.vararg, f.args.kwarg):
+            if va is not None:
+                params.add(va.arg)
+        own = src.own_nodes(f)
+        globs, local = set(), set()
+        for n in own:
+            if isinstance(n, ast.Global):
+                globs |= set(n.names)
+            if isinstance(n, ast.Name) and isinstance(n.ctx, ast.Store):
+                local.add(n.id)
+        local -= globs
+
+        def shared(b):
+            return b in modlevel and b not in params and b not in local
+
+        for n in own:
+            tg = []
+            if isinstance(n, ast.Assign):
+                tg = n.targets
+            elif isinstance(n, (ast.AugAssign, ast.AnnAssign)):
+                tg = [n.target]
+            elif isinstance(n, ast.Delete):
+                tg = n.targets
+            for t in tg:
+                for tt in (t.elts if isinstance(t, (ast.Tuple, ast.List)) else [t]):
+                    txt = ast.unparse(tt).replace('"', "'")[:100]
+                    if isinstance(tt, ast.Name) and tt.id in globs:
+                        rows.add((fn, q, "global", txt))
+                    elif isinstance(tt, (ast.Attribute, ast.Subscript)):
+                        b = base_name(tt)
+                        if shared(b):
+                            rows.add((fn, q, "module-object", txt))
+                        elif b == "cls" or b in classes or txt.startswith(("type(self)", "self.__class__")):
+                            rows.add((fn, q, "class-attr", txt))
+            if isinstance(n, ast.Call) and isinstance(n.func, ast.Attribute) and n.func.attr in mut:
+                b = base_name(n.func.value)
+                txt = ast.unparse(n).replace('"', "'")[:100]
+                if shared(b):
+                    rows.add((fn, q, "module-object", txt))
+                elif b == "cls" or (b in classes and not isinstance(n.func.value, ast.Name)) or txt.startswith(("type(self)", "self.__class__")):
+                    rows.add((fn, q, "class-attr", txt))
+            if isinstance(n, ast.Call) and isinstance(n.func, ast.Name) and n.func.id in ("setattr", "delattr") and n.args:
+                b = base_name(n.args[0])
+                if shared(b) or b == "cls" or b in classes:
+                    rows.add((fn, q, "setattr", ast.unparse(n).replace('"', "'")[:100]))
+    return sorted(rows)
+
+
 # wiring attributes may only be written by these builders
 WIRING_ATTRS = {"parent_parser", "subcommand", "_subcommands_action", "_name_parser_map"}
 WIRING_BUILDERS = {"_ActionSubCommands.add_subcommand", "ArgumentParser.add_subcommands"}
@@ -90,7 +247,7 @@ KNOWN_UNRESET = {
 class Src:
     def __init__(self):
         self.trees = {}
-        for path in sorted(glob.glob(os.path.join(REPO, "jsonargparse", "_*.py"))):
+        for path in sorted(glob.glob(os.path.join(REPO, "jsonargparse", "*.py"))):
             name = os.path.basename(path)
             if name == "__init__.py":
                 continue
@@ -275,12 +432,13 @@ def base_name(expr):
 def writes_of(src, q):
     """writes of one function to objects that may be parsers / actions / groups: [(target text, how)]"""
     fn, node = src.funcs[q]
-    if fn not in WRITE_FILES:
-        return []
     out = []
 
     def obj(expr):
-        return base_name(expr) in OBJ_NAMES or "sub_add_kwargs" in ast.unparse(expr)
+        # every module of the package, every receiver: anything that is not a name the package uses for the values being
+        # computed (LOCAL_VALUE_NAMES) may be a parser / action / group / class / long-lived helper object
+        b = base_name(expr)
+        return (b is not None and (b not in LOCAL_VALUE_NAMES or b in ("sys", "os"))) or "sub_add_kwargs" in ast.unparse(expr)
 
     for n in src.own_nodes(node):
         targets = []
@@ -314,7 +472,7 @@ def writes_of(src, q):
                     and obj(n.func.value) and isinstance(n.func.value, ast.Name):
                 # a builder called at parse time: on a fresh parser or on the parser itself?
                 out.append((ast.unparse(n), "build"))
-    return out
+    return [(t if len(t) <= 100 else t[:100] + "...", h) for t, h in out]
 
 
 # ---------------------------------------------------------------------------------------------------------------------
@@ -638,6 +796,14 @@ def generate(problems):
         "wiringAtBuildOnly": fact_wiring(src),
     }
     pc_deletes = [(f, t) for f, t, _, c in writes if c == "pending-delete"]
+    prows = []
+    for row in proc_writes(src):
+        cls = KNOWN_PROC_WRITES.get(row)
+        if cls is None:
+            problems.append("PState: unknown process-level write (module global / module-level container / class attribute / caching decorator): "
+                            "%s %s: %s %s" % row)
+            cls = "UNKNOWN"
+        prows.append(row + (cls,))
 
     body = "namespace Jap.Gen.PState\n"
     body += "/-- (context variable, function that sets it, token reset in a `finally` of that function) -/\n"
@@ -647,6 +813,11 @@ def generate(problems):
     body += "def writes : List (String × String × String × String × String) := [\n"
     body += ",\n".join("  (%s, %s, %s, %s, %s)" % (lean_str(f), lean_str(t), lean_str(h), lean_str(c.split(":", 1)[0]), lean_str(c.split(":", 1)[1] if ":" in c else ""))
                        for f, t, h, c in writes) + "]\n"
+    body += "/-- (file, function, kind, target, classification, remark) of the writes to process-level state (names declared `global`,\n"
+    body += "    module-level containers, class attributes, caching decorators) in every function of every module -/\n"
+    body += "def procWrites : List (String × String × String × String × String × String) := [\n"
+    body += ",\n".join("  (%s, %s, %s, %s, %s, %s)" % (lean_str(a), lean_str(b), lean_str(c), lean_str(d), lean_str(e.split(":", 1)[0]),
+                                                      lean_str(e.split(":", 1)[1] if ":" in e else "")) for a, b, c, d, e in prows) + "]\n"
     body += "/-- where a pending print_config request is removed -/\n"
     body += "def printConfigDeletes : List (String × String) := [%s]\n" % ", ".join("(%s, %s)" % (lean_str(f), lean_str(t)) for f, t in pc_deletes)
     for k, v in facts.items():
